@@ -809,3 +809,163 @@ def validate_register_each_other(run, n=12):
                 run.tie_broken("translator", "generated _register_with_each_other vs the real registry", "forms %s: real calls %s generated %s; symbol tables hold %s, generated %s"
                                % (order, real, a, held, gen_held))
     return len(cases)
+
+
+def validate_pair_builder(run, n=40):
+    """the regenerated Potential_Form_Builder (`_make_multi_range_tuple`, `create_potential_function`) and Pair_Potentials_From_Tuples_Builder (`_create_potential`,
+    `_init_potentials`) against the real classes on generated definition trees (the real namedtuples: form instances and modifiers nested to depth 2, 1..4 ranges with
+    and without starts, names the registries know or do not know, factories that raise ConfigurationException); the registries are dictionaries of recording factories
+    and `create_Multi_Range_Potential_Form` of the builder's module is replaced by a recorder, so that what is compared is the Multi_Range_Defn list each row's
+    callable was made from (range types, starts, which factory with how many arguments), the rows' species and order, and the class of the error"""
+    import atsim.potentials.config
+    from atsim.potentials.config import _potential_form_builder as pfbmod
+    from atsim.potentials.config._pair_potential_builder import Pair_Potentials_From_Tuples_Builder
+    from atsim.potentials.config._common import (PotentialFormInstanceTuple, PotentialModifierTuple, MultiRangeDefinitionTuple, PairPotentialTuple, SpeciesTuple,
+                                                  ConfigurationException, Unknown_Modifier_Exception)
+    ok, log = build_gen()
+    if not ok:
+        run.tie_broken("translator", "Gen/Logic.lean (form builder)", "the regenerated definitions (or their driver) do not build: " + log[-600:])
+        return 0
+    rng = run.rng
+
+    def gen_inst(ctr, depth, ranges, state):
+        """-> (real tuple, json) for a chain of `ranges` range definitions"""
+        ctr[0] += 1
+        nid = ctr[0]
+        start = None
+        if rng.random() < 0.7:
+            start = (rng.choice([">", ">="]), rng.randint(0, 40))
+        nxt = gen_inst(ctr, depth, ranges - 1, state) if ranges > 1 else (None, None)
+        rstart = MultiRangeDefinitionTuple(start[0], float(start[1])) if start else None
+        jstart = dict(rt=start[0], start=str(start[1])) if start else None
+        known = rng.random() < state["p_known"]
+        fails = known and rng.random() < state["p_fail"]
+        if depth > 0 and rng.random() < 0.35:
+            name = "m%d" % nid
+            args = [gen_inst(ctr, depth - 1, 1, state) for _ in range(rng.randint(1, 3))]
+            if known:
+                state["modifiers"].append(name)
+            if fails:
+                state["failing"].append(name)
+            return (PotentialModifierTuple(name, [a[0] for a in args], rstart, nxt[0]),
+                    dict(mod=True, name=name, params=[], args=[a[1] for a in args], start=jstart, next=nxt[1]))
+        name = "f%d" % nid
+        params = [rng.randint(-8, 8) / 4.0 for _ in range(rng.randint(0, 4))]
+        if known:
+            state["forms"].append(name)
+        if fails:
+            state["failing"].append(name)
+        return (PotentialFormInstanceTuple(name, params, rstart, nxt[0]),
+                dict(mod=False, name=name, params=[common.fq(Fr(p)) for p in params], args=[], start=jstart, next=nxt[1]))
+    cases, reqs = [], []
+    for _ in range(n):
+        mode = rng.random()
+        state = dict(forms=[], modifiers=[], failing=[], p_known=1.0 if mode < 0.6 else 0.9, p_fail=0.0 if mode < 0.8 else 0.12)
+        ctr = [0]
+        rows, jrows = [], []
+        for i in range(rng.randint(0 if rng.random() < 0.05 else 1, 4)):
+            a, b = rng.choice(["Al", "O", "U", "Gd"]), rng.choice(["Al", "O", "U", "Gd"])
+            real, js = gen_inst(ctr, 2, rng.randint(1, 4), state)
+            rows.append(PairPotentialTuple(SpeciesTuple(a, b), real))
+            jrows.append(dict(a=a, b=b, inst=js))
+        cases.append((rows, state))
+        reqs.append(dict(op="pair_builder", forms=state["forms"], modifiers=state["modifiers"], failing=state["failing"], rows=jrows))
+    bad = 0
+    saved = pfbmod.create_Multi_Range_Potential_Form
+    for (rows, state), a in zip(cases, query_gen(reqs)):
+        class Token(object):
+            def __init__(self, code):
+                self.code = code
+
+        def factory(name, modifier):
+            nid = int(name[1:])
+
+            def make(*args):
+                if name in state["failing"]:
+                    raise ConfigurationException("factory %s refuses" % name)
+                return Token(nid * 10 + (len(args[0]) if modifier else len(args)))
+            return make
+        forms = {nm: factory(nm, False) for nm in state["forms"]}
+        mods = {nm: factory(nm, True) for nm in state["modifiers"]}
+
+        def recorder(*tuples):
+            code = 0
+            for t in tuples:
+                sc = 0 if t.start == float("-inf") else int(t.start) + 1
+                code = code * 10000000 + ((t.potential_form.code * 100 + sc) * 4 + {">": 1, ">=": 2}.get(t.range_type, 3)) + 1
+            return Token(code)
+        pfbmod.create_Multi_Range_Potential_Form = recorder
+        try:
+            pots = Pair_Potentials_From_Tuples_Builder(rows, forms, mods).potentials
+            real = [[p.speciesA, p.speciesB, p.potentialFunction.code] for p in pots]
+        except Unknown_Modifier_Exception as e:
+            real = "unknownModifier"
+        except ConfigurationException as e:
+            m = str(e)
+            real = "unknownForm" if m.startswith("Unknown potential form") else ("problemDefining" if m.startswith("Problem defining") else "other: " + m[:80])
+        finally:
+            pfbmod.create_Multi_Range_Potential_Form = saved
+        run.traces += 1
+        run.dist["translator-validation/pair_builder/%s" % (real if isinstance(real, str) else "ok rows=%d" % len(real))] += 1
+        if real != a:
+            bad += 1
+            if bad <= 2:
+                run.tie_broken("translator", "generated form builder / pair builder vs the real classes", "rows %r (known forms %s, modifiers %s, failing %s): real %s generated %s"
+                               % (rows, state["forms"], state["modifiers"], state["failing"], real, a))
+    return len(cases)
+
+
+def validate_read_from_parser(run, n=40):
+    """the regenerated Configuration.read_from_parser against the real method: a Configuration whose factory table is replaced by recording factories (the real
+    table's names or others), a parser object reporting a target or none"""
+    import atsim.potentials.config
+    from atsim.potentials.config import Configuration
+    from atsim.potentials.config._common import ConfigurationException
+    from atsim.potentials.config._tabulation_factories import TABULATION_FACTORIES
+    ok, log = build_gen()
+    if not ok:
+        run.tie_broken("translator", "Gen/Logic.lean (Configuration)", "the regenerated definitions (or their driver) do not build: " + log[-600:])
+        return 0
+    rng = run.rng
+    real_names = list(TABULATION_FACTORIES.keys())
+    cases, reqs = [], []
+    for _ in range(n):
+        names = rng.sample(real_names, rng.randint(0, len(real_names))) if rng.random() < 0.7 else real_names[:]
+        if rng.random() < 0.2 and "LAMMPS" in names:
+            names.remove("LAMMPS")
+        failing = [x for x in names if rng.random() < 0.15]
+        target = rng.choice([None, None] + real_names + ["lammps", "nonsense", "", "LAMMPS "])
+        cases.append((names, failing, target))
+        reqs.append(dict(op="read_from_parser", factories=names, failing=failing, target=target))
+    bad = 0
+    for (names, failing, target), a in zip(cases, query_gen(reqs)):
+        class Fac(object):
+            def __init__(self, i, nm):
+                self.i, self.nm = i, nm
+
+            def create_tabulation(self, cp):
+                if self.nm in failing:
+                    raise ConfigurationException("factory refuses")
+                return self.i
+
+        class Cp(object):
+            class tabulation(object):
+                pass
+        Cp.tabulation.target = target
+        c = Configuration()
+        c._tabulation_factories = dict((nm, Fac(i, nm)) for i, nm in enumerate(names))
+        import logging
+        logging.disable(logging.CRITICAL)
+        try:
+            real = c.read_from_parser(Cp())
+        except ConfigurationException as e:
+            real = "unknownTarget" if "unknown tabulation target" in str(e) else "factory"
+        finally:
+            logging.disable(logging.NOTSET)
+        run.traces += 1
+        run.dist["translator-validation/read_from_parser/%s" % (real if isinstance(real, str) else "ok")] += 1
+        if real != a:
+            bad += 1
+            if bad <= 2:
+                run.tie_broken("translator", "generated Configuration.read_from_parser vs the real method", "factories %s failing %s target %r: real %s generated %s" % (names, failing, target, real, a))
+    return len(cases)
